@@ -60,6 +60,21 @@ func (e *Engine) GenLemma(con *Contract) (obls []*Obligation, err error) {
 	for _, r := range con.Requires {
 		vc.assume("true", vc.evalBool(env, r.Expr))
 	}
+	// regions of known findings apply to lemma obligations too (expressions over the lemma's parameters)
+	vc.regions = map[string]string{}
+	for _, f := range e.Findings {
+		if f.Kind == "finding" && f.Region != "" && strings.HasPrefix(f.Obligation, con.Name+"/") {
+			rx, err := ParseExpr(f.Region)
+			if err != nil {
+				return nil, fmt.Errorf("known_findings.json: region of %s: %v", f.Obligation, err)
+			}
+			r := vc.evalBool(env, rx)
+			if old, ok := vc.regions[f.Obligation]; ok {
+				r = sOr(old, r)
+			}
+			vc.regions[f.Obligation] = r
+		}
+	}
 	for i, cl := range con.Calls {
 		cc := e.CS.Contracts[cl.Key]
 		if cc == nil {
